@@ -9,8 +9,8 @@ from .. import base, docspec, drivers, explore, normal, report
 from . import common
 
 PROP = "C01"
-KQ = ("NL", "J", "CE", "W0", "CO", "CD")
-KT = KQ + ("NLI", "W3", "WT", "BL", "CEE")
+KQ = ("NL", "CE", "J", "W0")
+KT = KQ + ("NLI", "W3", "WT", "BL", "CEE", "CO", "CD")
 
 _allow = None
 UNIT_KEYWORDS = {"architecture", "entity", "package", "body", "process", "function", "procedure", "component", "context", "configuration", "block", "generate",
